@@ -225,3 +225,9 @@ def metadata_encrypted_when_present(ctx):
                   'metadata (e.g. empty) is neither encrypted nor bound to the authentication data' % (
                       c.ln, [(s[0], getattr(s[1], 'name', s[1])) for s in srcs][:2]), 'receiver is the parameter itself', c.where())
     ctx.floor(n, 1, 'Option combinator carrying the metadata encryption')
+
+
+@rule('C12', 'errors-propagated')
+def errors_propagated(ctx):
+    """'... truncated or altered ciphertexts yield an error': on the decrypting paths no Result is converted into None / a default."""
+    c07.errors_propagated(ctx)
